@@ -429,9 +429,14 @@ pub fn rundir() -> PathBuf {
 /// Start a server on its own thread. Returns once all workers are up and the handle is available.
 /// The next server started by this process is built with `ServerBuilder::system_exit()` (one-shot).
 pub static SYSTEM_EXIT_NEXT: AtomicBool = AtomicBool::new(false);
+/// The next server started by this process gets its listeners through `ServerBuilder::bind` / `bind_uds` (the builder
+/// creates the sockets itself: backlog, address resolution, removal of a stale socket file) instead of `listen` /
+/// `listen_uds` with sockets bound by the harness (one-shot). One address per name, so tokens stay = listener index.
+pub static BIND_NEXT: AtomicBool = AtomicBool::new(false);
 
 pub fn start(cfg: &ServerCfg, prepare: impl FnOnce(&[Ctl])) -> Result<Running, String> {
     let system_exit = SYSTEM_EXIT_NEXT.swap(false, Ordering::SeqCst);
+    let via_bind = BIND_NEXT.swap(false, Ordering::SeqCst);
     let no = RUN_NO.fetch_add(1, Ordering::SeqCst);
     let dir = rundir();
     let next_instance = Arc::new(AtomicU64::new(0));
@@ -446,14 +451,16 @@ pub fn start(cfg: &ServerCfg, prepare: impl FnOnce(&[Ctl])) -> Result<Running, S
             LKind::Tcp => {
                 let l = std::net::TcpListener::bind("127.0.0.1:0").map_err(|e| e.to_string())?;
                 addrs.push(Addr::Tcp(l.local_addr().unwrap()));
-                std_listeners.push((LKind::Tcp, Some(l), None));
+                // via_bind: the port is only reserved; the builder binds it again itself
+                std_listeners.push((LKind::Tcp, if via_bind { None } else { Some(l) }, None));
             }
             LKind::Uds => {
                 let p = dir.join(format!("s{no}-{i}.sock"));
                 let _ = std::fs::remove_file(&p);
                 let l = std::os::unix::net::UnixListener::bind(&p).map_err(|e| e.to_string())?;
                 addrs.push(Addr::Uds(p));
-                std_listeners.push((LKind::Uds, None, Some(l)));
+                // via_bind: the listener is dropped, its socket file stays behind as a stale path for bind_uds to replace
+                std_listeners.push((LKind::Uds, None, if via_bind { None } else { Some(l) }));
             }
         }
     }
@@ -463,6 +470,7 @@ pub fn start(cfg: &ServerCfg, prepare: impl FnOnce(&[Ctl])) -> Result<Running, S
     let cfg2 = cfg.clone();
     let ctls2 = ctls.clone();
     let done2 = server_done.clone();
+    let addrs2 = addrs.clone();
     let th = thread::Builder::new()
         .name(format!("vh-server-main-{no}"))
         .spawn(move || {
@@ -482,11 +490,21 @@ pub fn start(cfg: &ServerCfg, prepare: impl FnOnce(&[Ctl])) -> Result<Running, S
                     match k {
                         LKind::Tcp => {
                             let f = HFactory::<actix_rt::net::TcpStream> { ctl, _p: std::marker::PhantomData };
-                            b = b.listen(listener_name(i), t.unwrap(), move || f.clone()).map_err(|e| e.to_string())?;
+                            b = match (t, &addrs2[i]) {
+                                (Some(t), _) => b.listen(listener_name(i), t, move || f.clone()),
+                                (None, Addr::Tcp(a)) => b.bind(listener_name(i), *a, move || f.clone()),
+                                _ => unreachable!(),
+                            }
+                            .map_err(|e| e.to_string())?;
                         }
                         LKind::Uds => {
                             let f = HFactory::<actix_rt::net::UnixStream> { ctl, _p: std::marker::PhantomData };
-                            b = b.listen_uds(listener_name(i), u.unwrap(), move || f.clone()).map_err(|e| e.to_string())?;
+                            b = match (u, &addrs2[i]) {
+                                (Some(u), _) => b.listen_uds(listener_name(i), u, move || f.clone()),
+                                (None, Addr::Uds(p)) => b.bind_uds(listener_name(i), p, move || f.clone()),
+                                _ => unreachable!(),
+                            }
+                            .map_err(|e| e.to_string())?;
                         }
                     }
                 }
